@@ -147,8 +147,13 @@ func genC21(t *rapid.T) c21Case {
 	c.ParentNames = rapid.Permutation(c21ParentPool).Draw(t, "pnames")[:rapid.IntRange(1, 3).Draw(t, "npn")]
 	c.PeerHop = rapid.IntRange(0, 4).Draw(t, "peerhop") == 0
 	c.ReqEncoding = rapid.SampledFrom([]string{"", "", "", "gzip", "zstd"}).Draw(t, "reqenc")
-	if rapid.IntRange(0, 2).Draw(t, "sampler") == 0 {
-		c.SamplerFields = rapid.SliceOfNDistinct(rapid.SampledFrom([]string{"name", "n", "traceid", "meta.signal_type", "root.name", "absent"}), 1, 3, rapid.ID[string]).Draw(t, "sfields")
+	// Sampler key fields are extracted by the batch decoders in the same pass as the ID fields.
+	// They may overlap the configured ID-field names (rules_complete.yaml itself has a condition on
+	// trace.parent_id); identity and root status must not depend on them.
+	if rapid.IntRange(0, 1).Draw(t, "sampler") == 0 {
+		pool := append(append([]string{"name", "n", "traceid", "meta.signal_type", "root.name", "absent", "meta.trace_id"}, c21TracePool...), c21ParentPool...)
+		pool = append(pool, "root.trace.parent_id", "root.traceId")
+		c.SamplerFields = rapid.SliceOfNDistinct(rapid.SampledFrom(pool), 1, 4, rapid.ID[string]).Draw(t, "sfields")
 	}
 	evGen := rapid.Custom(func(t *rapid.T) c21Event {
 		fs := rapid.SliceOfNDistinct(rapid.Custom(func(t *rapid.T) c21Field { return c21GenField(t, jsonEnc) }), 1, 8,
@@ -345,6 +350,14 @@ func execC21(c c21Case) vkit.Result {
 		enc += "+peer-hop"
 	}
 	res.Class("enc=" + enc)
+	for _, f := range c.SamplerFields {
+		f = strings.TrimPrefix(f, "root.")
+		for _, n := range append(append([]string{}, c.TraceNames...), c.ParentNames...) {
+			if f == n {
+				res.Class("sampler-key-field-is-an-id-field")
+			}
+		}
+	}
 	mapPath := c.Encoding == "json-event" || c.Encoding == "msgpack-event"
 	// how refinery decodes the event data: single events are decoded into a Go
 	// map, batches are scanned as msgpack bytes (JSON batches after conversion)
@@ -630,7 +643,7 @@ func TestC21(t *testing.T) {
 	}
 	vkit.Run(t, vkit.Spec[c21Case]{
 		ID: "C21",
-		Rule: "rapid-generated events (1-3 per case) with any subset, order and typing (non-empty/empty string, number, bool, nil, array, map, bin, str8/16/32 wire forms, binary map keys) of meta.trace_id, 1-3 configured trace-ID and parent-ID field names out of a pool of 4 each (unconfigured pool names act as look-alikes) and meta.signal_type, sent to a real route.Router over loopback HTTP as JSON event, msgpack event, JSON batch or msgpack batch (optionally gzip/zstd, optionally with sampler key fields configured, optionally followed by a peer hop through a real DirectTransmission and re-ingestion of the forwarded batch). Observed: collector (TraceID, IsRoot) vs upstream transmission. Oracle: reference function written from the statement. Events with >=2 ID fields are sent 40x on the map-decoding paths so order nondeterminism shows within one execution. Non-trivial: an event with >=2 ID fields (meta.trace_id, configured trace-ID/parent-ID names) present. Distinct = distinct case JSON.",
+		Rule: "rapid-generated events (1-3 per case) with any subset, order and typing (non-empty/empty string, number, bool, nil, array, map, bin, str8/16/32 wire forms, binary map keys) of meta.trace_id, 1-3 configured trace-ID and parent-ID field names out of a pool of 4 each (unconfigured pool names act as look-alikes) and meta.signal_type, sent to a real route.Router over loopback HTTP as JSON event, msgpack event, JSON batch or msgpack batch (optionally gzip/zstd, optionally with sampler key fields configured that may overlap the configured ID-field names, optionally followed by a peer hop through a real DirectTransmission and re-ingestion of the forwarded batch). Observed: collector (TraceID, IsRoot) vs upstream transmission. Oracle: reference function written from the statement. Events with >=2 ID fields are sent 40x on the map-decoding paths so order nondeterminism shows within one execution. Non-trivial: an event with >=2 ID fields (meta.trace_id, configured trace-ID/parent-ID names) present. Distinct = distinct case JSON.",
 		Assumptions: []string{
 			"config.MockConfig stands in for the file config: GetTraceIdFieldNames/GetParentIdFieldNames are plain getters of IDFields.TraceNames/ParentNames",
 			"the router rig is shared by the cases of one process (configuration and recorders reset per case, cases run one at a time); the Router keeps no state these observations depend on",
